@@ -166,7 +166,10 @@ def check_canonical(case):
         ki = int(k, 2)
         # the key in one of the spellings HashMap.set takes by VALUE: int, bit string, bytes (the only byte spelling of a key
         # whose width is not a multiple of 8 is longer than the key), with or without surplus leading zeros
-        key = [ki, k, ki.to_bytes((n + 7) // 8, 'big'), ki.to_bytes((n + 7) // 8 + 1 + ki % 2, 'big'), '0' * (1 + ki % 5) + k][kf]
+        key = [ki, k, ki.to_bytes((n + 7) // 8, 'big'), ki.to_bytes((n + 7) // 8 + 1 + ki % 2, 'big'), '0' * (1 + ki % 5) + k, None][kf]
+        if kf == 5:                                   # n == 267 and the key is the addr_std encoding of this Address object
+            from pytoniq_core.boc.address import Address
+            key = Address((((ki >> 256) & 0xFF) - (256 if (ki >> 263) & 1 else 0), (ki % (1 << 256)).to_bytes(32, 'big')))
         ok, r = call(hm.set, key, int(vb, 2))
         if not ok:
             if kf in (0, 1) or (kf == 2 and n % 8 == 0):
@@ -196,6 +199,21 @@ def check_canonical(case):
         mapping2 = dict(mapping2)
         mapping2[extra] = (format(0xBEEF, '016b'), [])
         steps.append(('key-added', mapping2))
+    # values that are mutable objects of the caller, changed IN PLACE between two serialisations of the same map object
+    if len(mapping) <= 8:
+        boxes = {int(k, 2): [int(vb, 2)] for k, (vb, _) in mapping.items()}
+        hmb = HashMap(n, value_serializer=lambda src, dest: dest.store_uint(src[0], 16))
+        for ki, bx in boxes.items():
+            hmb.set(ki, bx)
+        ok, cb = call(hmb.serialize)
+        if ok and cb is not None and cb.hash == ref.repr_hash():
+            kx = sorted(boxes)[-1]
+            boxes[kx][0] ^= 0x0101
+            mp3 = {format(ki, '0%db' % n): (format(bx[0], '016b'), []) for ki, bx in boxes.items()}
+            ok, cb2 = call(hmb.serialize)
+            if not ok or cb2 is None or cb2.hash != refdict.build(mp3, n).repr_hash():
+                return Fail('hash-differs-from-canonical-tree/after-update/value-changed-in-place', f'n={n}: serialised, changed the value object '
+                            f'of key {kx} in place, serialised again')
     for i, (what, mp) in enumerate(steps):
         if what == 'key-added':
             hm.set(int(extra, 2), 0xBEEF)
@@ -319,7 +337,7 @@ def check_aug(case):
     return None
 
 
-WIDTHS = [1, 2, 3, 4, 5, 8, 16, 32, 64, 256, 267, 900]
+WIDTHS = [1, 2, 3, 4, 5, 8, 16, 32, 64, 256, 267, 267, 900]
 
 
 @st.composite
@@ -340,6 +358,10 @@ def st_tree(draw, kinds=False, prune=False, refs=False, keyforms=False):
         case['refs'] = 1
     if keyforms:
         case['kf'] = draw(st.sampled_from([0, 0, 1, 2, 3, 4]))
+        if n == 267 and draw(st.booleans()):
+            # keys that ARE addr_std encodings (tag 100, no anycast, int8 workchain, 256-bit account), given as Address objects
+            case['kf'] = 5
+            case['pairs'] = [[(0b100 << 264) | (k % (1 << 264)), v] for k, v in case['pairs']]
     return case
 
 
@@ -366,7 +388,7 @@ def classify(case):
     if case.get('refs'):
         yield 'values-and-extras-carry-references'
     if 'kf' in case:
-        yield 'key-spelling=' + ['int', 'bits', 'bytes-ceil', 'bytes-long', 'bits-long'][case['kf']]
+        yield 'key-spelling=' + ['int', 'bits', 'bytes-ceil', 'bytes-long', 'bits-long', 'address-object'][case['kf']]
     try:
         kinds = []
         refdict.decode(refdict.build(_mapping(case), n, kind_of=_kind_chooser(case)), n, kinds=kinds)
